@@ -21,7 +21,7 @@ RULE = (
     "(operation, parameters, screen hash); raising = did not return; non-trivial = returned and input has >=2 unobserved plates or >=2 samples"
 )
 ASSUMPTIONS = ["NPlatePerCellLine: 'no sample' is read as no sample that still has unobserved experiments in the output (the observed part passes through, C11)"]
-REQUIRED = {"combo_filter_combination_free_cases": {"quick": 8, "thorough": 200}, "cli_shape_runs": {"quick": 12, "thorough": 120}, "returned_SampleSegregating": {"quick": 150, "thorough": 3000}, "returned_Pairwise": {"quick": 40, "thorough": 1000}, "returned_MergeMin": {"quick": 60, "thorough": 1500}, "returned_MergeTopBottom": {"quick": 60, "thorough": 1500}, "returned_FixedSize": {"quick": 80, "thorough": 2000}, "returned_OptimalSize": {"quick": 80, "thorough": 2000}, "returned_NPlatePerCellLine": {"quick": 60, "thorough": 1500}, "returned_SparseCover": {"quick": 80, "thorough": 2000}, "returned_combo_filter": {"quick": 80, "thorough": 2000}}
+REQUIRED = {"smoother_objects_that_refused_a_screen_before": {"quick": 20, "thorough": 400}, "combo_filter_combination_free_cases": {"quick": 8, "thorough": 200}, "cli_shape_runs": {"quick": 12, "thorough": 120}, "returned_SampleSegregating": {"quick": 150, "thorough": 3000}, "returned_Pairwise": {"quick": 40, "thorough": 1000}, "returned_MergeMin": {"quick": 60, "thorough": 1500}, "returned_MergeTopBottom": {"quick": 60, "thorough": 1500}, "returned_FixedSize": {"quick": 80, "thorough": 2000}, "returned_OptimalSize": {"quick": 80, "thorough": 2000}, "returned_NPlatePerCellLine": {"quick": 60, "thorough": 1500}, "returned_SparseCover": {"quick": 80, "thorough": 2000}, "returned_combo_filter": {"quick": 80, "thorough": 2000}}
 N_OPS = {"quick": 4800, "thorough": 64000}
 
 
@@ -288,6 +288,24 @@ def run_shard(rec, tier, seed, shard, nshards):
         g = np.random.default_rng(int(rng.integers(0, 2**31)))
         if rng.random() < 0.3:
             g.random(int(rng.integers(1, 30)))
+        if name in ("MergeMin", "MergeTopBottom", "NPlatePerCellLine", "FixedSize", "OptimalSize", "BatchieEnsemble") and rng.random() < 0.3 and "observation_mask" in kw and len(set(kw["sample_names"].tolist())) >= 2:
+            # a smoother object with a past: it was first handed a screen it refuses (the same plates, but one
+            # unobserved plate carries a row of another sample), the caller caught that and goes on with the good screen
+            try:
+                un_rows = np.flatnonzero(~np.asarray(kw["observation_mask"], dtype=bool))
+                if len(un_rows):
+                    r_ = int(rng.choice(un_rows))
+                    others_ = [x for x in sorted(set(kw["sample_names"].tolist())) if x != kw["sample_names"][r_]]
+                    sn_bad = kw["sample_names"].copy()
+                    sn_bad[r_] = others_[int(rng.integers(len(others_)))]
+                    bad_screen = Screen(**dict(kw, sample_names=sn_bad))
+                    try:
+                        fn(bad_screen, np.random.default_rng(0))
+                        rec.count("smoother_objects_first_used_on_another_screen")
+                    except Exception:
+                        rec.count("smoother_objects_that_refused_a_screen_before")
+            except Exception as e:
+                rec.did_not_return("object-with-a-past-setup", e)
         before_fp = RC.screen_fingerprint(kit, screen)
         ok, out = kit.returns(rec, name, fn, screen, g)
         rec.check(RC.screen_fingerprint(kit, screen) == before_fp, "C13/input/mutated", "%s%r mutated its input screen" % (name, params), w)
